@@ -25,6 +25,12 @@
 //                              a name or string whose bytes are those of a keyword or operator
 //                              (stream, endobj, R, true, Tj, …) at some position of an array,
 //                              dictionary, object sequence or operand list is not read back   (keywords.go)
+//   C06/core-nesting-roundtrip-<type>, C06/core-nesting-limit, C06/cs-nesting-grouping,
+//   C06/cs-nesting-roundtrip[-<type>], C06/cs-nesting-limit, C06/nesting-parsers-disagree,
+//   C06/core-nesting-truncated
+//                              arrays and dictionaries nested 498..502 deep (the parsers' documented
+//                              limit is 500 containers open at once): round trip up to the limit,
+//                              an error beyond it, in both parsers alike   (nesting.go)
 //   C06/panic, C06/hang
 package c06
 
@@ -585,7 +591,7 @@ func stage(n int) bool {
 func Run(c *hx.Ctx) {
 	x := runner{c}
 	defer keepWitnesses(c)
-	c.Rep.Rule = "object trees: every container skeleton to depth 4 (3 in quick) with ≤2 children per array/dict, leaves cycled over a 3-atom alphabet per type, plus random trees to depth 8 with strings/names over all 256 bytes, int64 limits and dyadic reals; each printed by an ISO 32000-1 §7.2-7.3 printer under 10 spelling policies (minimal/maximal white space, comments, CR/LF/CRLF, literal/escaped/octal/hex strings, #-escaped names, random mix); random operator programs (≤60 operations, all operand types, incl. ' \" T* d0); integer/reference sequences; names and strings whose bytes are exactly a keyword or operator of the format (true false null R obj endobj stream endstream xref trailer startxref f n BI ID EI and all 70 content operators, plus one-byte-longer/shorter/other-case near misses) at every position of arrays, dictionaries (key, value, both; last and followed), nested containers, top-level sequences, next to integers and references, and of operand lists (also before the operator of the same spelling), under the ten policies (buckets kwspelled-*); every document-level input also through io.Readers with short reads (1,2,3,7,4095,… byte pieces, random schedules, last piece with io.EOF); large arrays/dictionaries/object sequences/nested containers/long strings and operator programs whose print crosses 1-3 multiples of the 4096-byte I/O buffer, each slid by a white-space or comment prefix of 0..K-1 bytes (K=40 quick, 130 thorough) so that every token and separator kind lies across offsets 4095/4096, 8191/8192, 12287/12288 in turn (distribution buckets straddle-*); plus a malformed stream (mutated prints and token soup) compared with the model by value-or-error only. non-trivial = parsed without error to a non-empty result."
+	c.Rep.Rule = "object trees: every container skeleton to depth 4 (3 in quick) with ≤2 children per array/dict, leaves cycled over a 3-atom alphabet per type, plus random trees to depth 8 with strings/names over all 256 bytes, int64 limits and dyadic reals; each printed by an ISO 32000-1 §7.2-7.3 printer under 10 spelling policies (minimal/maximal white space, comments, CR/LF/CRLF, literal/escaped/octal/hex strings, #-escaped names, random mix); random operator programs (≤60 operations, all operand types, incl. ' \" T* d0); integer/reference sequences; names and strings whose bytes are exactly a keyword or operator of the format (true false null R obj endobj stream endstream xref trailer startxref f n BI ID EI and all 70 content operators, plus one-byte-longer/shorter/other-case near misses) at every position of arrays, dictionaries (key, value, both; last and followed), nested containers, top-level sequences, next to integers and references, and of operand lists (also before the operator of the same spelling), under the ten policies (buckets kwspelled-*); every document-level input also through io.Readers with short reads (1,2,3,7,4095,… byte pieces, random schedules, last piece with io.EOF); large arrays/dictionaries/object sequences/nested containers/long strings and operator programs whose print crosses 1-3 multiples of the 4096-byte I/O buffer, each slid by a white-space or comment prefix of 0..K-1 bytes (K=40 quick, 130 thorough) so that every token and separator kind lies across offsets 4095/4096, 8191/8192, 12287/12288 in turn (distribution buckets straddle-*); container chains nested 498, 499, 500, 501, 502 deep (thorough: also 1, 2, 37, 250, 490, 510, 1000, 1501) around the parsers' documented limit of 500 containers open at once - all arrays, all dictionaries, alternating either way, random per level; alone or with scalar / container siblings before, after or on both sides of the deep child at every level; innermost an empty container, a scalar of every type, or a string / name made of the bytes that open containers - each as a document-level object and as a content-stream operand under two (thorough: all ten plus a random) spelling policies; 499..1100 sibling containers inside one array, one dictionary, one top-level sequence, one operand list and one operation each (levels are given back); three chains at the limit side by side, in sequence and inside one more container, with a too deep one in no / first / middle / last position; and unbalanced inputs (opening delimiters only to depth 3000 (5000), closing delimiters cut off or in excess) (buckets nest-*); plus a malformed stream (mutated prints and token soup) compared with the model by value-or-error only. non-trivial = parsed without error to a non-empty result."
 
 	// 1. exhaustive container skeletons ------------------------------------------------
 	depth := c.N(3, 4)
@@ -769,6 +775,11 @@ func Run(c *hx.Ctx) {
 		x.stageKeywordSpelled()
 	}
 
+	// 11. arrays and dictionaries nested around the parsers' limit of 500 (nesting.go) -------------------
+	if stage(11) && !poisoned {
+		x.stageNesting()
+	}
+
 	// 7. malformed / raw stream: value-or-error against the model only ---------------------------
 	if poisoned {
 		c.Note("run cut short after an in-process hang (a goroutine of the implementation is still spinning)")
@@ -920,5 +931,19 @@ func Replay(c *hx.Ctx, kase map[string]interface{}) {
 		}
 	case "agree":
 		runner{c}.checkAgree(in)
+	case "nest-agree":
+		csHex, _ := kase["cs"].(string)
+		cs := unhex(csHex)
+		a := runObj(in)
+		runCS([]byte("q"))
+		b := runCS(cs)
+		if abnormal(c, a, "obj", in) || abnormal(c, b, "cs", cs) {
+			return
+		}
+		depth := 0
+		if len(a.objs) == 1 {
+			depth = a.objs[0].nesting()
+		}
+		runner{c}.nestAgree(a, b, in, cs, depth)
 	}
 }
